@@ -180,7 +180,7 @@ Lemma alookup_set_subs subs : forall old f,
 Proof.
   unfold set_subs, sub_spec. induction subs as [|[f' q] subs IH]; intros old f; cbn [fold_left last_q fst snd]; [reflexivity|].
   rewrite IH. destruct (last_q f subs); [reflexivity|].
-  apply (alookup_aset bytes_eqb bytes_eqb_eq).
+  rewrite (alookup_aset bytes_eqb bytes_eqb_eq). destruct (bytes_eqb f f'); reflexivity.
 Qed.
 
 Lemma nodup_set_subs subs : forall old, NoDup (map fst old) -> NoDup (map fst (set_subs subs old)).
@@ -221,7 +221,7 @@ Proof.
   unfold subscribe, resub_ok. destruct (session_of st c) as [[k s]|] eqn:S; [|reflexivity].
   destruct (negb (batches_ok _ b)); [intros H; exfalso; apply H; reflexivity|]. intros _.
   rewrite get_put, skey_eqb_refl. cbn [s_subs].
-  assert (X : negb (nodup_keys (s_subs s)) || nodup_keys (set_subs subs (s_subs s)) &&
+  assert (X : (negb (nodup_keys (s_subs s)) || nodup_keys (set_subs subs (s_subs s))) &&
               forallb (fun f => option_eqb N.eqb (alookup bytes_eqb f (set_subs subs (s_subs s))) (sub_spec (s_subs s) subs f))
                 (map fst (s_subs s) ++ map fst subs ++ map fst (set_subs subs (s_subs s))) = true).
   { apply andb_true_iff; split; [apply nodup_imp, nodup_set_subs|].
